@@ -510,6 +510,9 @@ class ObjectBase(EntityContainer):
         if not isinstance(children, list):
             children = [children]
 
+        # the caller may hand over the list of children itself
+        children = list(children)
+
         for child in children:
             if child not in self._children:
                 continue
